@@ -356,6 +356,35 @@ def run(case, st):
         ctx.catcode('\\', 12)
         ctx.pop()
         st.feature('table-reached-through', 'group-closed-after-assignments')
+    elif common.case_hash(case)[0] % 4 == 1:
+        # ... after an outer group that made its first change only when an inner group with a change of its own had closed
+        hostile = [('!', 11), ('\\', 12), ('@', 11), ('~', 12), ('%', 12), ('a', 13)]
+        k = common.case_hash(case)[2] % len(hostile)
+        if ((via_source or not spec['assign']) and spec['base'] == 'default' and not spec.get('prelude') and common.case_hash(case)[3] % 2 == 0
+                and not any(ch in '{}' for ch, code in spec['assign'])):
+            a, b = hostile[k], hostile[(k + 2) % len(hostile)]
+            a, b = (a if a[0] in PRIM_SAFE else ('!', 11)), (b if b[0] in PRIM_SAFE else ('@', 11))
+            try:
+                tex.input('{{\\catcode`\\%s=%d\\relax x}\\catcode`\\%s=%d\\relax y}' % (a[0], a[1], b[0], b[1]))
+                for _ in tex:
+                    pass
+            except common.CaseTimeout:
+                raise
+            except Exception as e:
+                import traceback
+                st.violation('catcode-primitive-raises-' + type(e).__name__, case, 'nested groups with changes: %s' % traceback.format_exc()[-400:])
+                return {'nontrivial': True}
+            tex.inputs[:] = []
+            st.feature('table-reached-through', 'nested-groups-in-source')
+        else:
+            ctx.push()
+            ctx.push()
+            ctx.catcode(*hostile[k])
+            ctx.pop()
+            ctx.catcode(*hostile[(k + 1) % len(hostile)])
+            ctx.catcode(*hostile[(k + 3) % len(hostile)])
+            ctx.pop()
+            st.feature('table-reached-through', 'nested-groups-closed')
     else:
         st.feature('table-reached-through', 'assignments')
     table = ref_table(spec)
